@@ -149,7 +149,7 @@ def part_detail(detail: Any) -> list:
     return [t for t in _detail_set(detail) if isinstance(t, list) and len(t) == 3 and t[0] not in ("kw", "case", "txt")]
 
 
-def signature(rule: str, detail: Any, desc: dict) -> str:
+def signature(rule: str, detail: Any, desc: dict, c: Any = None) -> str:
     if rule in ("parameters-do-not-conform", "body-does-not-conform"):
         kws = sorted({k for ks in kw_detail(detail).values() for k in ks})
         feats = features(desc)
@@ -203,7 +203,7 @@ def run_property(ctx: Ctx, pid: str, family: str, jobs_for, n_label: str, sign, 
         detail = dis[i][1]
         ji, c = back[i - 1]
         job = jobs[ji]
-        sig = sign(rule, detail, job["desc"])
+        sig = sign(rule, detail, job["desc"], c)
         if c is None:
             summary = "%s: outcome %s (%s) for %s mode=%s modes=%s" % (rule, results[ji]["outcome"], results[ji]["error"], _short(job["desc"]), job["mode"], job["modes"])
         else:
@@ -273,7 +273,7 @@ def replay_property(ctx: Ctx, pid: str, data: dict, sign) -> Outcome:
     for i, rule in [(i, r) for i in sorted(dis) for r in dis[i][0]]:
         detail = dis[i][1]
         if rule == data["rule"]:
-            out.violations.append(Violation(sign(rule, detail, job["desc"]), rule, data))
+            out.violations.append(Violation(sign(rule, detail, job["desc"], back[i - 1][1]), rule, data))
     return out
 
 
